@@ -90,3 +90,19 @@ func VerifC14Evict() {
 	verifAssert("locks-released", verifLocksHeld() <= 0)
 	verifReach("end")
 }
+
+// C09: TTL map public methods under concurrency.
+func VerifC09TTLMap() {
+	verifClockInit("t0")
+	m := NewTTLMap(2)
+	_ = m.Set("A", 1, 5)
+	_ = m.Set("B", 2, 9)
+	verifShared(m)
+	verifRacePair("Set|Get", func() { _ = m.Set("A", 3, 5) }, func() { _, _ = m.Get("B") })
+	verifRacePair("Set(new)|Set(new)", func() { _ = m.Set("C", 3, 5) }, func() { _ = m.Set("D", 3, 5) })
+	verifRacePair("Get|Get", func() { _, _ = m.Get("A") }, func() { _, _ = m.Get("B") })
+	verifRacePair("Increment|Len", func() { _, _ = m.Increment("A", 1, 5) }, func() { _ = m.Len() })
+	_ = verifAdvance("adv", 20)
+	verifRacePair("Get(expired)|Get(expired)", func() { _, _ = m.Get("A") }, func() { _, _ = m.Get("A") })
+	verifReach("end")
+}
